@@ -220,6 +220,81 @@ def _(val, val_if_error, result):
     return same_object(result, val_if_error if isinstance(val, XlError) else val)
 
 
+# ------------------------------------------------------------------------------------ text kernels (string theory)
+Count = OneOf(IntT(-3, 10 ** 6), ConstT(None))     # None stands for the blank the kernels turn into 0 (`num_chars or 0`)
+Txt = StrT()
+
+
+def _n(k):
+    return 0 if k is None else k
+
+
+c_left = Contract('formulas.functions.text:xleft', dict(from_str=Txt, num_chars=Count), 'C12', name='xleft', use=[])
+c_right = Contract('formulas.functions.text:xright', dict(from_str=Txt, num_chars=Count), 'C12', name='xright', use=[],
+                   hooks={'str_reverse': 'abstract'})
+c_mid = Contract('formulas.functions.text:xmid', dict(from_str=Txt, start_num=Count, num_chars=Count), 'C12', name='xmid', use=[])
+c_repl = Contract('formulas.functions.text:xreplace', dict(old_text=Txt, start_num=Count, num_chars=Count, new_text=Txt), 'C12',
+                  name='xreplace', use=[])
+CONTRACTS += [c_left, c_right, c_mid, c_repl]
+
+
+@c_left.ensures('first-n-characters-negative-count-is-VALUE', 'P')
+def _(from_str, num_chars, result):
+    n = _n(num_chars)
+    if n < 0:
+        return result is VALUE
+    return len(result) == (n if n < len(from_str) else len(from_str)) and from_str.startswith(result)
+
+
+@c_right.ensures('last-n-characters-negative-count-is-VALUE', 'P')
+def _(from_str, num_chars, result):
+    n = _n(num_chars)
+    if n < 0:
+        return result is VALUE
+    return len(result) == (n if n < len(from_str) else len(from_str)) and from_str.endswith(result)
+
+
+@c_mid.ensures('n-characters-from-position-bad-positions-are-VALUE', 'P')
+def _(from_str, start_num, num_chars, result):
+    s, n = _n(start_num), _n(num_chars)
+    if s < 1 or n < 0:
+        return result is VALUE
+    # the text from position s (1-based), at most n characters
+    rest = len(from_str) - (s - 1)
+    want = 0 if rest <= 0 else (n if n < rest else rest)
+    return len(result) == want and (want == 0 or from_str[s - 1:s - 1 + want] == result)
+
+
+@c_repl.ensures('n-characters-from-position-replaced-bad-positions-are-VALUE', 'P')
+def _(old_text, start_num, num_chars, new_text, result):
+    s, n = _n(start_num), _n(num_chars)
+    if s < 1 or n < 0:
+        return result is VALUE
+    head = old_text[:s - 1]
+    tail = old_text[s - 1 + n:]
+    return result == head + new_text + tail
+
+
+@c_left.canary('canary:never-VALUE')
+def _(from_str, num_chars, result):
+    return result is not VALUE
+
+
+@c_right.canary('canary:whole-text')
+def _(from_str, num_chars, result):
+    return result == from_str
+
+
+@c_mid.canary('canary:never-empty')
+def _(from_str, start_num, num_chars, result):
+    return result is VALUE or len(result) > 0
+
+
+@c_repl.canary('canary:keeps-length')
+def _(old_text, start_num, num_chars, new_text, result):
+    return result is VALUE or len(result) == len(old_text)
+
+
 # ====================================================================================
 # bounded stage: listed functions against spec functions over pools
 def _F():
